@@ -137,18 +137,21 @@ class Replayer:
                 names = beh["init"][hi]["names"]
                 for cid, n in zip(ids, names):
                     s.colmap[cid] = t[n]
+            # identity 999: a reference into an unrelated table (never derivable in any behaviour)
+            other = self.B.table(bk, len(self.B.srcs) - 1, name="unrelated")
+            s.colmap[999] = other[self.B.srcs[-1]["cols"][0][0]]
             sides[bk] = s
         return Node(sides)
 
     # ------------------------------------------------------------------
     def fail(self, node, beh, k, backend, clause, detail, **extra):
-        heap_obs = [dict(ids=o["ids"], names=o["names"], part=o["part"], rows=o["rows"][:1]) for o in beh["init"]]
+        heap_obs = [dict(ids=o["ids"], names=o["names"], part=o["part"], pids=o.get("pids", []), rows=o["rows"][:1]) for o in beh["init"]]
         for s in beh["steps"][:k]:
             if "o" in s:
                 o = s["o"]
                 while len(heap_obs) < s["out"] - 1:
                     heap_obs.append(None)
-                heap_obs.append(dict(ids=o["ids"], names=o["names"], part=o["part"], rows=o["rows"][:1]))
+                heap_obs.append(dict(ids=o["ids"], names=o["names"], part=o["part"], pids=o.get("pids", []), rows=o["rows"][:1]))
         rec = dict(clause=clause, backend=backend, step=k, detail=str(detail)[:600], src=beh["srcnames"],
                    srcidx=beh["src"], moves=[s["m"] for s in beh["steps"][: k + 1]], heap_obs=heap_obs,
                    beh=dict(src=beh["src"], srcnames=beh["srcnames"], init=beh["init"], steps=beh["steps"][: k + 1]))
